@@ -268,12 +268,99 @@ Inductive fkind :=
 | FFeat               (* RawFeatureVector: u16 length + bytes, re-encoded minimally *)
 | FVar16Max (m : N)   (* DeliveryAddress: u16 length, rejected when > m, then the bytes *)
 | FArr16 (n : nat)    (* []Sig: u16 count, then count elements of n raw bytes each *)
+| FAlias              (* NodeAlias: 32 bytes accepted iff utf8.ValidString *)
+| FAddrs              (* []net.Addr: u16 byte length + address descriptors, re-encoded from the
+                         parsed addresses (padding descriptors dropped, IPv4-mapped tcp6 -> tcp4) *)
+| FBigSize            (* tlv.ReadVarInt / WriteVarInt: a BigSize integer, minimal encodings only *)
 | FRest               (* ExtraOpaqueData read with io.ReadAll: all remaining bytes *)
 | FTlvRest.           (* ExtraOpaqueData + ValidateTLV (DecodeP2P with no known records) *)
 
 Inductive fval := VN (n : N) | VB (b : bytes).
 
 Definition layout := list fkind.
+
+Fixpoint beq (a b : bytes) : bool :=
+  match a, b with
+  | [], [] => true
+  | x :: a', y :: b' => (x =? y) && beq a' b'
+  | _, _ => false
+  end.
+
+(* unicode/utf8.ValidString: `need` continuation bytes outstanding, the next one in lo..hi
+   (the first continuation byte of E0/ED/F0/F4 has a narrower range: no overlong forms,
+   no surrogates, nothing above U+10FFFF) *)
+Fixpoint utf8_from (b : bytes) (need : nat) (lo hi : N) : bool :=
+  match b with
+  | [] => match need with O => true | _ => false end
+  | x :: r =>
+    match need with
+    | S n => (lo <=? x) && (x <=? hi) && utf8_from r n 128 191
+    | O =>
+      if x <? 128 then utf8_from r 0 128 191
+      else if x <? 194 then false
+      else if x <? 224 then utf8_from r 1 128 191
+      else if x =? 224 then utf8_from r 2 160 191
+      else if x =? 237 then utf8_from r 2 128 159
+      else if x <? 240 then utf8_from r 2 128 191
+      else if x =? 240 then utf8_from r 3 144 191
+      else if x <? 244 then utf8_from r 3 128 191
+      else if x =? 244 then utf8_from r 3 128 143
+      else false
+    end
+  end.
+
+Definition utf8_valid (b : bytes) : bool := utf8_from b 0 128 191.
+
+(* ---- address descriptors of node_announcement (lnwire.ReadAddress / WriteNetAddrs) ----
+   0 padding (skipped, not kept); 1 tcp4: 4+2 bytes; 2 tcp6: 16+2 bytes (net.IP.To4() turns
+   an IPv4-mapped address ::ffff:a.b.c.d into a tcp4 descriptor on re-encode); 3 onion v2:
+   10+2; 4 onion v3: 35+2; 5 dns: u8 length, hostname, 2-byte port; any other type: the rest
+   of the address bytes, kept opaque.  Result: the re-encoding of the parsed addresses;
+   None = a descriptor is cut short. *)
+Definition v4_mapped (h : bytes) : bool :=
+  beq (firstn 12 h) [0; 0; 0; 0; 0; 0; 0; 0; 0; 0; 255; 255].
+
+Fixpoint addrs_norm (fuel : nat) (b : bytes) : option bytes :=
+  match fuel with
+  | O => None
+  | S f =>
+    match b with
+    | [] => Some []
+    | t :: r =>
+      let fixed n :=
+        match take n r with
+        | Some (h, r') =>
+          match addrs_norm f r' with Some x => Some (t :: h ++ x) | None => None end
+        | None => None
+        end in
+      if t =? 0 then addrs_norm f r
+      else if t =? 1 then fixed 6
+      else if t =? 2 then
+        match take 18 r with
+        | Some (h, r') =>
+          match addrs_norm f r' with
+          | Some x => Some ((if v4_mapped h then 1 :: skipn 12 h else 2 :: h) ++ x)
+          | None => None
+          end
+        | None => None
+        end
+      else if t =? 3 then fixed 12
+      else if t =? 4 then fixed 37
+      else if t =? 5 then
+        match r with
+        | l :: r1 =>
+          match take (l + 2) r1 with
+          | Some (h, r') =>
+            match addrs_norm f r' with Some x => Some (5 :: l :: h ++ x) | None => None end
+          | None => None
+          end
+        | [] => None
+        end
+      else Some b
+    end
+  end.
+
+Definition addrs_parse (b : bytes) : option bytes := addrs_norm (S (length b)) b.
 
 Fixpoint strip0 (b : bytes) : bytes :=
   match b with
@@ -311,6 +398,10 @@ Section Fields.
     | FVar16Max m, VB b => wf_bytesb b && (blen b <=? m) && (blen b <=? 65535)
     | FArr16 n, VB b => wf_bytesb b && negb (Nat.eqb n 0) &&
                         (blen b mod N.of_nat n =? 0) && (blen b / N.of_nat n <=? 65535)
+    | FAlias, VB b => wf_bytesb b && Nat.eqb (length b) 32 && utf8_valid b
+    | FAddrs, VB b => wf_bytesb b && (blen b <=? 65535) &&
+                      (match addrs_parse b with Some b' => beq b' b | None => false end)
+    | FBigSize, VN x => x <? two64
     | FRest, VB b => wf_bytesb b
     | FTlvRest, VB b => wf_bytesb b && tlv_valid b
     | _, _ => false
@@ -327,6 +418,9 @@ Section Fields.
     | FVar16Max _, VB b => if blen b <=? 65535 then Some (be_enc 2 (blen b) ++ b) else None
     | FArr16 n, VB b =>
       if blen b / N.of_nat n <=? 65535 then Some (be_enc 2 (blen b / N.of_nat n) ++ b) else None
+    | FAlias, VB b => if Nat.eqb (length b) 32 then Some b else None
+    | FAddrs, VB b => if blen b <=? 65535 then Some (be_enc 2 (blen b) ++ b) else None
+    | FBigSize, VN x => Some (bigsize_enc x)
     | FRest, VB b => Some b
     | FTlvRest, VB b => Some b
     | _, _ => None
@@ -377,6 +471,23 @@ Section Fields.
         | None => None
         end
       end
+    | FAlias =>
+      match take 32 b with
+      | Some (h, r) => if utf8_valid h then Some (VB h, r) else None
+      | None => None
+      end
+    | FAddrs =>
+      match read_be 2 b with
+      | Some (l, r) =>
+        match take l r with
+        | Some (h, r') =>
+          match addrs_parse h with Some v => Some (VB v, r') | None => None end
+        | None => None
+        end
+      | None => None
+      end
+    | FBigSize =>
+      match bigsize_dec b with Ok (v, r) => Some (VN v, r) | Err _ => None end
     | FRest => Some (VB b, [])
     | FTlvRest => if tlv_valid b then Some (VB b, []) else None
     end.
@@ -418,7 +529,7 @@ Section Fields.
 
   (* every field is an exact (non-normalising) codec *)
   Definition exact_f (k : fkind) : bool :=
-    match k with FBool | FFeat => false | _ => true end.
+    match k with FBool | FFeat | FAddrs => false | _ => true end.
 
   (* the layout ends with a rest-of-message field: nothing is ignored *)
   Fixpoint ends_terminal (L : layout) : bool :=
